@@ -8,10 +8,10 @@ the abstract search FsgSearchAbs.tla is model-checked exhaustively for the same 
 """
 import json, os, random
 from vlib import sut, tlc, tracecheck, runner
-from checks import decmatrix
+from checks import decmatrix, synhist
 
 SPEC = os.path.join(sut.VERIF, "specs", "result")
-KEEP = {"Header", "Grammar", "Start", "Feed", "End", "Result"}
+KEEP = {"Header", "Grammar", "Start", "Feed", "End", "Result", "SynHist"}
 
 
 def model_check(ctx, which, quick):
@@ -63,6 +63,9 @@ def run_which(ctx, which):
         model_check(ctx, which, quick)
         n = 160 if quick else 2500
         cases = [decmatrix.make_case(rng, ctx, i, {"result", "partial"}) for i in range(n)]
+        # every history table the abstract search reaches, written into a real search object: the real find_exit /
+        # backtrace / segment iterator on each (a seeded sample in the quick tier)
+        cases += synhist.cases(ctx, rng, quick, lambda tag: ["result " + tag], n + 100, count=2000 if quick else None)
     by_id = dict(cases)
     chunks, crashes = decmatrix.run_cases(ctx, drv, cases)
     for eid, why in crashes:
